@@ -216,6 +216,24 @@ def mk_concat(parts):
     return ('concat', tuple(canon(x) for x in out))
 
 
+def _self_extension(cur, val):
+    """val is `cur` (or a copy of it) followed by new elements -> the new elements, else None"""
+    def is_cur(t):
+        if t == cur:
+            return True
+        return isinstance(t, tuple) and len(t) == 3 and t[0] == 'call' and t[1] in ('list', 'tuple') and len(t[2]) == 1 \
+            and t[2][0] == cur
+    if isinstance(val, tuple) and val and val[0] == 'binop' and val[1] == 'Add' and is_cur(val[2]) \
+            and isinstance(val[3], tuple) and val[3] and val[3][0] == 'list' \
+            and not any(isinstance(x, tuple) and x and x[0] == 'star' for x in val[3][1]):
+        return list(val[3][1])
+    if isinstance(val, tuple) and val and val[0] == 'list' and val[1] and isinstance(val[1][0], tuple) \
+            and val[1][0] and val[1][0][0] == 'star' and is_cur(val[1][0][1]) \
+            and not any(isinstance(x, tuple) and x and x[0] == 'star' for x in val[1][1:]):
+        return list(val[1][1:])
+    return None
+
+
 def _find_ite(t):
     if not isinstance(t, tuple) or not t or not isinstance(t[0], str):
         return None
@@ -964,6 +982,14 @@ class Extractor:
             p.env[target.id] = val
         elif isinstance(target, ast.Attribute):
             base = self.expr(target.value, p, bound)
+            # x.f = list(x.f) + [a] / x.f = [*x.f, a] / x.f = x.f + [a]: the old content plus new elements - one
+            # spelling with the copy-append-assign idiom and with x.f.append(a)
+            cur = p.store.get((base, target.attr), ('attr', base, target.attr))
+            added = _self_extension(cur, val)
+            if added is not None:
+                for a_ in added:
+                    p.effects.append(('append', canon(cur), canon(a_)))
+                return
             p.store[(base, target.attr)] = val
             p.effects.append(('set', (base, target.attr), val))
         elif isinstance(target, (ast.Tuple, ast.List)):
@@ -1077,6 +1103,17 @@ class Extractor:
                 else:
                     raise Unsupported('del target')
             return [p]
+        if isinstance(st, ast.AugAssign) and isinstance(st.op, ast.Add) \
+                and not (isinstance(st.value, ast.Constant) and isinstance(st.value.value, (int, float, str))) \
+                and not isinstance(st.value, (ast.BinOp, ast.JoinedStr)):
+            cur0 = self.expr(st.target, p, bound)
+            v0 = self.expr(st.value, p, bound)
+            listy = (isinstance(st.target, (ast.Subscript, ast.Attribute)) and not _is_strish(v0) and v0[0] not in ('lit', 'len', 'count')) \
+                or _is_new(cur0) or cur0[0] in ('list',)
+            if listy and v0[0] not in ('lit',):
+                # `xs += ys` on a list is `xs.extend(ys)`: in place, the object stays the same
+                p.effects.append(('extend', canon(cur0), canon(v0)))
+                return [p]
         if isinstance(st, ast.AugAssign):
             cur = self.expr(st.target, p, bound)
             val = ('binop', type(st.op).__name__, cur, self.expr(st.value, p, bound))
